@@ -268,6 +268,22 @@ func GridCases(thorough bool) []WriteCase {
 			}
 		}
 	}
+	// integers whose magnitude takes 13/14, 63/64/65, 127/128 and thousands of bytes, alone and in a run
+	// (the driver changes its big.Int in place after every WriteBigInt call)
+	var run []*model.Value
+	for _, kbits := range []uint{96, 104, 112, 496, 503, 504, 505, 512, 520, 1016, 1024, 4096, 40000} {
+		for _, d := range []int64{-1, 0, 1} {
+			n := new(big.Int).Lsh(big.NewInt(1), kbits)
+			n.Add(n, big.NewInt(d))
+			add(3, model.IntV(n))
+			add(3, model.IntV(new(big.Int).Neg(n)))
+			if d == 0 && kbits <= 1024 {
+				run = append(run, model.IntV(n), model.IntV(new(big.Int).Neg(n)))
+			}
+		}
+	}
+	add(3, run...)
+	add(3, model.ListV(model.CloneAll(run)...), model.StructV(model.IntV(new(big.Int).Lsh(big.NewInt(1), 600)).WithField(model.T("n"))))
 	lens := []int{0, 1, 2, 12, 13, 14, 15, 16, 63, 64, 65, 126, 127, 128, 129}
 	if thorough {
 		lens = append(lens, 16382, 16383, 16384, 16385, 2097151, 2097152)
